@@ -511,6 +511,46 @@ func (w *feWalker) eval(st *feState, v ssa.Value) (constant.Value, bool) {
 			return val, true
 		}
 	}
+	// an element of a constant package-level array / slice table with a known index
+	if u, ok := v.(*ssa.UnOp); ok && u.Op == token.MUL {
+		if ia, ok := u.X.(*ssa.IndexAddr); ok {
+			var g *ssa.Global
+			switch b := ia.X.(type) {
+			case *ssa.Global:
+				g = b
+			case *ssa.UnOp:
+				g, _ = b.X.(*ssa.Global)
+			}
+			if g != nil {
+				if w.P == nil {
+					w.P = curProg
+				}
+				if w.P != nil {
+					if tbl, n, ok := w.P.constArray(g); ok {
+						if idx, ok := w.eval(st, ia.Index); ok && idx.Kind() == constant.Int {
+							i64, _ := constant.Int64Val(idx)
+							if val, has := tbl[i64]; has {
+								return val, true
+							}
+							if i64 >= 0 && (n < 0 || i64 < n) {
+								// an element the literal does not list: the zero value
+								if at, ok := u.Type().Underlying().(*types.Basic); ok {
+									switch {
+									case at.Info()&types.IsNumeric != 0:
+										return constant.MakeInt64(0), true
+									case at.Info()&types.IsString != 0:
+										return constant.MakeString(""), true
+									case at.Info()&types.IsBoolean != 0:
+										return constant.MakeBool(false), true
+									}
+								}
+							}
+						}
+					}
+				}
+			}
+		}
+	}
 	switch x := v.(type) {
 	case *ssa.Const:
 		if x.Value == nil {
